@@ -241,10 +241,138 @@ fn collect_scans(
         return Ok(());
     }
 
+    // Subqueries that stay embedded in an expression (an IN / EXISTS / scalar
+    // subquery the optimizer did not turn into a join) are plans of their own
+    // and are NOT children of this node: their scans must be gathered too, or
+    // the re-bound statement finds a table without the columns it reads.
+    let mut embedded: Vec<&LogicalPlan> = Vec::new();
+    match plan {
+        LogicalPlan::Filter(n) => collect_embedded_subqueries(&n.predicate, &mut embedded),
+        LogicalPlan::Project(n) => n
+            .exprs
+            .iter()
+            .for_each(|e| collect_embedded_subqueries(e, &mut embedded)),
+        LogicalPlan::Aggregate(n) => n
+            .group_by
+            .iter()
+            .chain(n.aggregates.iter())
+            .for_each(|e| collect_embedded_subqueries(e, &mut embedded)),
+        LogicalPlan::Join(n) => {
+            for (l, r) in &n.on {
+                collect_embedded_subqueries(l, &mut embedded);
+                collect_embedded_subqueries(r, &mut embedded);
+            }
+            if let Some(f) = &n.filter {
+                collect_embedded_subqueries(f, &mut embedded);
+            }
+        }
+        LogicalPlan::Sort(n) => n
+            .order_by
+            .iter()
+            .for_each(|s| collect_embedded_subqueries(&s.expr, &mut embedded)),
+        _ => {}
+    }
+    for sub in embedded {
+        collect_scans_whole_width(ctx, sub, required)?;
+    }
+
     for child in plan.children() {
         collect_scans(ctx, child, required)?;
     }
     Ok(())
+}
+
+/// Scans below an embedded subquery: projection pushdown does not descend
+/// into expression subqueries, so what such a scan records as its projection
+/// is not what the subquery reads. Gather the table's whole width —
+/// over-gathering is safe, under-gathering is a wrong answer.
+fn collect_scans_whole_width(
+    ctx: &ExecutionContext,
+    plan: &LogicalPlan,
+    required: &mut BTreeMap<String, Option<BTreeSet<String>>>,
+) -> Result<()> {
+    if let LogicalPlan::Scan(scan) = plan {
+        ctx.table_provider(&scan.table_name).ok_or_else(|| {
+            QueryError::NotImplemented(format!(
+                "`{}` resolves to no registered table provider; only catalog tables can be \
+                 gathered",
+                scan.table_name
+            ))
+        })?;
+        required.insert(scan.table_name.clone(), None);
+        return Ok(());
+    }
+    let mut embedded: Vec<&LogicalPlan> = Vec::new();
+    match plan {
+        LogicalPlan::Filter(n) => collect_embedded_subqueries(&n.predicate, &mut embedded),
+        LogicalPlan::Project(n) => n
+            .exprs
+            .iter()
+            .for_each(|e| collect_embedded_subqueries(e, &mut embedded)),
+        _ => {}
+    }
+    for sub in embedded {
+        collect_scans_whole_width(ctx, sub, required)?;
+    }
+    for child in plan.children() {
+        collect_scans_whole_width(ctx, child, required)?;
+    }
+    Ok(())
+}
+
+/// Subquery plans an expression carries (IN / EXISTS / scalar subquery).
+fn collect_embedded_subqueries<'a>(e: &'a crate::planner::Expr, out: &mut Vec<&'a LogicalPlan>) {
+    use crate::planner::Expr;
+    match e {
+        Expr::ScalarSubquery(p) => out.push(p.as_ref()),
+        Expr::Exists { subquery, .. } => out.push(subquery.as_ref()),
+        Expr::InSubquery { expr, subquery, .. } => {
+            collect_embedded_subqueries(expr, out);
+            out.push(subquery.as_ref());
+        }
+        Expr::BinaryExpr { left, right, .. } => {
+            collect_embedded_subqueries(left, out);
+            collect_embedded_subqueries(right, out);
+        }
+        Expr::UnaryExpr { expr, .. } | Expr::Cast { expr, .. } | Expr::Alias { expr, .. } => {
+            collect_embedded_subqueries(expr, out)
+        }
+        Expr::Aggregate { args, .. } | Expr::ScalarFunc { args, .. } => {
+            for a in args {
+                collect_embedded_subqueries(a, out);
+            }
+        }
+        Expr::Case {
+            operand,
+            when_then,
+            else_expr,
+        } => {
+            if let Some(o) = operand {
+                collect_embedded_subqueries(o, out);
+            }
+            for (w, t) in when_then {
+                collect_embedded_subqueries(w, out);
+                collect_embedded_subqueries(t, out);
+            }
+            if let Some(el) = else_expr {
+                collect_embedded_subqueries(el, out);
+            }
+        }
+        Expr::InList { expr, list, .. } => {
+            collect_embedded_subqueries(expr, out);
+            for i in list {
+                collect_embedded_subqueries(i, out);
+            }
+        }
+        Expr::Between {
+            expr, low, high, ..
+        } => {
+            collect_embedded_subqueries(expr, out);
+            collect_embedded_subqueries(low, out);
+            collect_embedded_subqueries(high, out);
+        }
+        _ => {}
+    }
 }
 
 /// Column names an expression mentions.
